@@ -12,6 +12,9 @@ def cases(rng, tier, focus):
             for extra in (0, 2):
                 yield dict(hd=hd, extra=extra, n=int(rng.integers(hd + 4, 14 if hd < 3 else 11)), kind=['convex', 'nonconvex'][rep % 2], seed=int(rng.integers(0, 10 ** 6)))
 
+# witness of the recorded finding 'NaN at a selected vertex on the footprint boundary' (known_findings.txt)
+PINNED = [dict(hd=3, extra=2, n=10, kind='nonconvex', seed=130321)]
+
 def nontrivial(c): return (c['hd'], c['extra'], c['n'], c['kind'], c['seed'] % 4)
 
 def envelope(P, y, q, tol=1e-12):
@@ -60,7 +63,20 @@ def check(c):
         with warnings.catch_warnings():
             warnings.simplefilter('ignore')
             R = dch.score_feature_matrix(X)
-        expect(R.shape == (n, c['extra']) and np.allclose(R[sel], 0, atol=1e-9), sig('post[C19]:selected-samples-have-zero-high-dimensional-residual'))
+        Rs = R[sel] if R.shape == (n, c['extra']) else None
+        nanrows = np.isnan(Rs).any(axis=1) if Rs is not None else np.zeros(0, bool)
+        expect(Rs is not None and np.allclose(Rs[~nanrows], 0, atol=1e-9), sig('post[C19]:selected-samples-have-zero-high-dimensional-residual'))
+        if nanrows.any():
+            # NaN at a selected sample: the interpolator could not locate one of its own vertices.  Classified by where that vertex lies
+            # (recorded finding: a vertex ON THE BOUNDARY of the hull's footprint is reported as outside by scipy's point location)
+            Ps = P[sel]
+            if hd == 1: bnd = {int(np.argmin(Ps[:, 0])), int(np.argmax(Ps[:, 0]))}
+            else:
+                from scipy.spatial import ConvexHull
+                try: bnd = set(ConvexHull(Ps).vertices.tolist())
+                except Exception: bnd = set()
+            where = 'on-the-footprint-boundary' if all(int(t) in bnd for t in np.flatnonzero(nanrows)) else 'inside-the-footprint'
+            expect(False, sig(f'post[C19]:selected-samples-have-zero-high-dimensional-residual@nan-at-a-selected-vertex-{where}'), f"selected samples {sel[nanrows].tolist()}")
     # queries inside the footprint: vertical offset from the lower envelope
     for t in range(4):
         lam = rng.dirichlet(np.ones(len(sel))); q = lam @ P[sel]
